@@ -122,7 +122,8 @@ func (s *MultipartReply) MarshalBinary() (data []byte, err error) {
 
 func (s *MultipartReply) UnmarshalBinary(data []byte) error {
 	err := s.Header.UnmarshalBinary(data)
-	n := s.Header.Len()
+	// an int offset: a uint16 one wraps around at 64 KiB and the loop below starts over
+	n := int(s.Header.Len())
 
 	s.Type = binary.BigEndian.Uint16(data[n:])
 	n += 2
@@ -130,7 +131,7 @@ func (s *MultipartReply) UnmarshalBinary(data []byte) error {
 	n += 2
 	n += 4 // for padding
 	var req []util.Message
-	for n < s.Header.Length {
+	for n < int(s.Header.Length) {
 		var repl util.Message
 		switch s.Type {
 		case MultipartType_Aggregate:
@@ -154,7 +155,7 @@ func (s *MultipartReply) UnmarshalBinary(data []byte) error {
 		if err != nil {
 			log.Printf("Error parsing stats reply")
 		}
-		n += repl.Len()
+		n += int(repl.Len())
 		req = append(req, repl)
 
 	}
